@@ -521,6 +521,9 @@ def c10_charnock(run, drv, rng, ncases):
             n = rng.randint(1, 7)
             U = np.array([math.exp(rng.uniform(math.log(0.1), math.log(80))) for _ in range(n)])
             nanmask = np.array([rng.random() < 0.15 for _ in range(n)])
+            if rng.random() < 0.25:
+                U[rng.randrange(n)] = 0.0           # a calm sample is a wind speed, not a missing value
+                run.count("calm_sample")
             Un = np.where(nanmask, np.nan, U)
             ch = rng.choice([0.005, 0.0095, 0.012, 0.0185, 0.04])
             visc = rng.choice([0.0, 0.0, 0.11, 0.3])
@@ -556,7 +559,15 @@ def c10_charnock(run, drv, rng, ncases):
             if np.any(np.isnan(z[~miss])):
                 run.violation("the Charnock roughness of a finite wind speed is missing", dict(info, z0=z.tolist()))
                 continue
+            if np.any(np.isnan(cd[~miss])):
+                run.violation("the drag coefficient of a finite wind speed is missing", dict(info, drag=cd.tolist()))
+                continue
             for u, zz, c in zip(Un[~miss], z[~miss], cd[~miss]):
+                if u == 0:
+                    # z0 = 0 solves the equation; the iteration stops within its absolute tolerance of it
+                    if not (0 <= zz <= 1e-10) or not (c == c and c >= 0):
+                        run.violation("calm sample: roughness / drag are not the (near-)zero solution", dict(info, z0=float(zz), cd=float(c)))
+                    continue
                 us = kappa * u / math.log(10 / zz)
                 want = ch * us ** 2 / wp.G + (visc * nu / us if us > 0 else 0.0)
                 if not (zz > 0) or abs(zz - want) > 1e-4 * want:
@@ -567,7 +578,7 @@ def c10_charnock(run, drv, rng, ncases):
             if visc == 0 and (~miss).sum() >= 2:
                 o = np.argsort(Un[~miss])
                 zs, cs, us_ = z[~miss][o], cd[~miss][o], Un[~miss][o]
-                sep = np.diff(us_) > 1e-3 * us_[:-1]
+                sep = np.diff(us_) > 1e-3 * us_[:-1] + 1e-12
                 if np.any(np.diff(zs)[sep] <= 0) or np.any(np.diff(cs)[sep] <= 0):
                     run.violation("without the viscous term roughness / drag do not increase with wind speed", dict(info, z0=zs.tolist()))
             # correspondence
